@@ -145,7 +145,8 @@ def runImpl (s : State) : Program → State × Res
 /-! ### The specification side -/
 
 /-- Remove the nodes `hs` one after the other (`clear()` walks the entry nodes it collected
-    first); each must still be there when its turn comes. -/
+    first); each must still be there when its turn comes — which is always so for the entry nodes
+    of an element (`Prog3.clear_accepted`, Lemmas/Fprog3Clear.lean). -/
 def specRemoveAll : List Nat → Forest → Option Forest
   | [], f => some f
   | h :: hs, f => if f.isLive h then specRemoveAll hs (specRemoveP h f) else none
@@ -209,12 +210,10 @@ def firstRefused (s : State) : Program → Option Nat
     | (s', .ok) => (firstRefused s' rest).map (· + 1)
     | _ => some 0
 
-/-- Calls outside the direction implementation ⇒ specification: what `Prog2.Call.inScope` excludes,
-    and a `clear()` whose entry nodes are not all still there when their turn comes (the
-    specification tests that, `specRemoveAll`; xot does not). -/
+/-- Calls outside the direction implementation ⇒ specification: what `Prog2.Call.inScope` excludes;
+    none of the new calls. -/
 def Call.inScope (f : Forest) : Call → Bool
   | .old c => c.inScope f
-  | .mapClear k e => !isElementAt f e || (specRemoveAll (entryHandles f k e) f).isSome
   | _ => true
 
 def inScope (s : State) : Program → Bool
